@@ -128,4 +128,28 @@ def build():
     u.groups['bitand_1'] = dict(header='impl<A> BitAnd for (A,) where A: BitSetLike,', pre='    type Value = A;\n    spec fn and_view(&self) -> Set<u32> { self.0.bview() }\n', private=False)
     u.fn(BA, ['impl<A> BitAnd for (A,)', 'fn and'], props='C06', group='bitand_1', key='BitAnd(A,)::and',
          hint_obligations=[E('trait.and.view', 'the combined mask of a one-member join is the member mask', 'C06')])
+    # ---- tuple members and BitAnd for arities 2 and 3: MACRO-GENERATED (define_open!, bitset_and!), taken from rustc's own
+    # expansion of the crate on every run (pseudo file @expanded). N17: `let &mut (ref mut A, ref mut B) = v;` -> field borrows.
+    X = '@expanded'
+    N17_2 = [('N17', r'let &mut \(ref mut A, ref mut B\) = v;', 'let A = &mut v.0; let B = &mut v.1;')]
+    N17_3 = [('N17', r'let &mut \(ref mut A, ref mut B, ref mut C\) = v;', 'let A = &mut v.0; let B = &mut v.1; let C = &mut v.2;')]
+    u.groups['bitand_2'] = dict(header='impl<A, B> BitAnd for (A, B) where A: BitSetLike, B: BitSetLike,', private=False,
+                                pre='    type Value = BitSetAnd<<<Self as Split>::Left as BitAnd>::Value, <<Self as Split>::Right as BitAnd>::Value>;\n    spec fn and_view(&self) -> Set<u32> { self.0.bview().intersect(self.1.bview()) }\n')
+    u.fn(X, ['mod join', 'mod bit_and', 'impl<A, B> BitAnd for (A, B)', 'fn and'], props='C06', group='bitand_2', key='BitAnd(A,B)::and',
+         hint_obligations=[E('trait.and.view', 'the combined mask of a pair is the intersection of the member masks', 'C06')])
+    u.groups['bitand_3'] = dict(header='impl<A, B, C> BitAnd for (A, B, C) where A: BitSetLike, B: BitSetLike, C: BitSetLike,', private=False,
+                                pre='    type Value = BitSetAnd<<<Self as Split>::Left as BitAnd>::Value, <<Self as Split>::Right as BitAnd>::Value>;\n    spec fn and_view(&self) -> Set<u32> { self.0.bview().intersect(self.1.bview().intersect(self.2.bview())) }\n')
+    u.fn(X, ['mod join', 'mod bit_and', 'impl<A, B, C> BitAnd for (A, B, C)', 'fn and'], props='C06', group='bitand_3', key='BitAnd(A,B,C)::and',
+         hint_obligations=[E('trait.and.view', 'the combined mask of a triple is the intersection of the member masks', 'C06')])
+    for (ar, gen, tup, pre_file, n17, masks) in [
+            (2, 'A, B', '(A, B)', 'tuple2.rs', N17_2, '(<A as Join>::Mask, <B as Join>::Mask)'),
+            (3, 'A, B, C', '(A, B, C)', 'tuple3.rs', N17_3, '(<A as Join>::Mask, <B as Join>::Mask, <C as Join>::Mask)')]:
+        bounds = ', '.join('%s: Join' % g for g in gen.split(', '))
+        hdr = 'unsafe impl<%s> Join for %s where %s, %s: BitAnd,' % (gen, tup, bounds, masks)
+        pre = open(os.path.join(_here, 'members', pre_file)).read()
+        u.groups['j_tuple%d' % ar] = dict(header=hdr, pre=pre, private=False)
+        for f in ('open', 'get', 'is_unconstrained'):
+            labels = dict(open=['mask', 'pre'], get=['item', 'keeps'], is_unconstrained=[])[f]
+            u.fn(X, ['mod join', 'impl<%s> Join for %s' % (gen, tup), 'fn ' + f], props='C06', group='j_tuple%d' % ar, key='j_tuple%d::%s' % (ar, f), rules=n17,
+                 hint_obligations=[E('trait.%s.%s' % (f, l), 'inherited postcondition of Join::%s (%s) for the %d-tuple' % (f, l, ar), 'C06') for l in labels])
     return u
